@@ -397,22 +397,38 @@ def rule_e(prog, rep):
     ms = [nd for nd, a in common.walk_fn(ps) if nd.get('k') == 'match' and 'KeySegment' in str(nd.get('scrut_ty'))]
     loops = [nd for nd, a in common.walk_fn(ps) if nd.get('k') == 'for']
     res = []
-    if not loops or not any('split' in x or 'param(pattern)' in x for x in b.origins(loops[0]['iter'])):
+    sp = [nd for nd, a in common.walk_fn(ps) if nd.get('k') == 'call' and short(callee(nd)) == 'split']
+    # two spellings: `for segment in pattern.split('/') { match .. { Regular(r) => segments.push(r), ? / # => return Err(..) } } Ok(segments)`
+    # or `pattern.split('/').map(|segment| match .. { Regular(r) => Ok(r), ? / # => Err(..) }).collect()` (collect into Result stops at
+    # the first Err)
+    maps = [nd for nd, a in common.walk_fn(ps) if nd.get('k') == 'call' and short(callee(nd)) == 'map' and
+            any('split' in x for x in b.origins(nd['args'][0]))]
+    colls = [nd for nd, a in common.walk_fn(ps) if nd.get('k') == 'call' and short(callee(nd)) == 'collect' and 'Result' in str(nd.get('ty'))]
+    iterator_form = bool(maps and colls) and not loops
+    if not iterator_form and (not loops or not any('split' in x or 'param(pattern)' in x for x in b.origins(loops[0]['iter']))):
         res.append('does not iterate the segments of its argument')
-    else:
-        sp = [nd for nd, a in common.walk_fn(ps) if nd.get('k') == 'call' and short(callee(nd)) == 'split']
-        if not sp or sp[0]['args'][1].get('k') != 'lit' or sp[0]['args'][1]['v'].get('v') != '/':
-            res.append('does not split on "/"')
+    elif not sp or b.origins(sp[0]['args'][0]) != {'param(pattern)'} or sp[0]['args'][1].get('k') != 'lit' or sp[0]['args'][1]['v'].get('v') != '/':
+        res.append('does not split its argument on "/"')
     if ms:
         for arm in ms[0]['arms']:
             vs = {short(v) for v in pat_variants(arm['pat'])}
             errs = [short(ctor_name(nd)) for nd, a in walk(arm['body']) if ctor_name(nd) and 'WorterbuchError::' in ctor_name(nd)]
             ret = any(x.get('k') == 'return' for x, _ in walk(arm['body']))
+            if iterator_form:
+                # the arm's value is the item: Err(..) ends the collection
+                body_ = arm['body']
+                while isinstance(body_, dict) and body_.get('k') == 'block' and 'tail' in body_ and not body_.get('stmts'):
+                    body_ = body_['tail']
+                ret = (ctor_name(body_) or '').endswith('Err')
+                collected = (ctor_name(body_) or '').endswith('Ok') and body_['args'] and \
+                    all('#Regular.0' in x for x in b.origins(body_['args'][0]))
+            else:
+                collected = any(x.get('k') == 'call' and short(callee(x)) == 'push' for x, _ in walk(arm['body']))
             if vs == {'Wildcard'} and (errs != ['IllegalWildcard'] or not ret):
                 res.append(f'`?` segment -> {errs}')
             if vs == {'MultiWildcard'} and (errs != ['IllegalMultiWildcard'] or not ret):
                 res.append(f'`#` segment -> {errs}')
-            if vs == {'Regular'} and (errs or not any(x.get('k') == 'call' and short(callee(x)) == 'push' for x, _ in walk(arm['body']))):
+            if vs == {'Regular'} and (errs or not collected):
                 res.append('literal segment is not collected')
             if '_' in vs:
                 res.append('catch-all arm')
